@@ -137,9 +137,18 @@ Proof.
     + injection Hr as <-. exact (exec_drain c w st a v sb eb pat f r0 Hwf HW Hfuse Ed).
     + cbn [admissible] in Hadm. exact (exec_drain_mv c w st a v sb eb pat f r Hwf HW Hfuse Hr (adm_pat_of c w v pat Hadm)).
   - (* OSplice *)
-    cbn [admissible] in Hadm.
-    destruct rk as [| |src]; try exact (exec_splice c w st a v sb eb pat f _ n wrong_at claimed r Hwf HW Hfuse Hr Hadm).
-    destruct wrong_at as [x|]; [exact (exec_splice c w st a v sb eb pat f _ n _ claimed r Hwf HW Hfuse Hr Hadm)|].
+    cbn [admissible] in Hadm. destruct Hadm as [Hadm Hadmp].
+    assert (Hgen : forall rk' wa',
+              match sp_splice c st (unext (wuw w)) v sb eb pat f rk' n wa' claimed with
+              | Some r0 => Some r0
+              | None => sp_splice_mv c st (unext (wuw w)) v sb eb pat f rk' n wa' claimed
+              end = Some r ->
+              res_matches c w (exec c (OSplice a v sb eb pat f rk' n wa' claimed) w) r).
+    { intros rk' wa' H'. destruct (sp_splice c st (unext (wuw w)) v sb eb pat f rk' n wa' claimed) as [r0|] eqn:Es.
+      - injection H' as <-. exact (exec_splice c w st a v sb eb pat f rk' n wa' claimed r0 Hwf HW Hfuse Es Hadm).
+      - exact (exec_splice_mv c w st a v sb eb pat f rk' n wa' claimed r Hwf HW Hfuse H' Hadm (adm_pat_of c w v pat Hadmp)). }
+    destruct rk as [| |src]; [exact (Hgen RWrap wrong_at Hr)|exact (Hgen RBox wrong_at Hr)|].
+    destruct wrong_at as [x|]; [exact (Hgen (RLazy src) (Some x) Hr)|].
     exact (exec_splice_lazy c w st a v sb eb pat f src n claimed r Hwf HW Hfuse Hr Hadm).
   - (* OClone *)
     cbn [admissible] in Hadm. exact (exec_clone c w st v dst r Hwf HW Hfuse Hr Hadm).
@@ -242,6 +251,13 @@ Proof.
   unfold sp_splice in H'. cbv zeta in H'.
   crush H'; cbn; split; lia.
 Qed.
+Lemma sp_splice_mv_nx c st nx v sb eb pat f rk n wa cl r :
+  sp_splice_mv c st nx v sb eb pat f rk n wa cl = Some r -> nx <= s_nx r /\ s_out r < 100.
+Proof.
+  intros H. destruct (sp_splice_mv_inv _ _ _ _ _ _ _ _ _ _ _ _ _ H) as (_ & _ & H'). clear H.
+  unfold sp_splice_mv0, sp_splice_fin in H'. cbv zeta in H'.
+  crush H'; cbn; split; lia.
+Qed.
 Lemma sp_look_nx c st nx o r : sp_look c st nx o = Some r -> nx <= s_nx r /\ s_out r < 100.
 Proof. unfold sp_look. intros H. crush H; cbn; split; lia. Qed.
 Lemma sp_offer_wrong_nx c st nx v k r : sp_offer_wrong c st nx v k = Some r -> nx <= s_nx r /\ s_out r < 100.
@@ -267,8 +283,15 @@ Proof.
     try (destruct (sp_drain c st nx v sb eb pat f) as [r0|] eqn:Ed;
          [injection H as <-; apply sp_drain_nx in Ed; exact Ed|apply sp_drain_mv_nx in H; exact H]);
     try (apply sp_splice_nx in H; exact H);
-    try (destruct rk as [| |src]; try (apply sp_splice_nx in H; exact H);
-         destruct wrong_at; [apply sp_splice_nx in H; exact H|];
+    try (assert (Hgen : forall rk' wa',
+                   match sp_splice c st nx v sb eb pat f rk' n wa' claimed with
+                   | Some r0 => Some r0
+                   | None => sp_splice_mv c st nx v sb eb pat f rk' n wa' claimed
+                   end = Some r -> nx <= s_nx r /\ s_out r < 100)
+           by (intros rk' wa' H'; destruct (sp_splice c st nx v sb eb pat f rk' n wa' claimed) as [r0|] eqn:Es;
+               [injection H' as <-; apply sp_splice_nx in Es; exact Es|apply sp_splice_mv_nx in H'; exact H']);
+         destruct rk as [| |src]; [exact (Hgen RWrap wrong_at H)|exact (Hgen RBox wrong_at H)|];
+         destruct wrong_at as [wa0|]; [exact (Hgen (RLazy src) (Some wa0) H)|];
          unfold sp_splice_lazy in H; cbv zeta in H; crush H; cbn; split; lia);
     try (apply sp_look_nx in H; exact H);
     try (apply sp_take_nx in H; exact H);
@@ -463,7 +486,7 @@ Definition admissibleb (c : cfg) (w : world) (o : op) : bool :=
       end
   | OShrinkToFit v | OShrinkTo v _ =>
       match get_vec v w with Some vv => c_sz c * vcap vv <=? alloc_limit | None => true end
-  | OSplice _ v sb eb _ _ _ _ _ cl => adm_spliceb c w v sb eb cl
+  | OSplice _ v sb eb pat _ _ _ _ cl => adm_spliceb c w v sb eb cl && forallb (adm_patb c w pat) (pat_dsts pat)
   | OSpareWrite _ v k => match get_vec v w with Some vv => vlen vv + k <=? vcap vv | None => true end
   | OWithCapacity _ bk n =>
       bk_wfb bk && (n <=? usize_max)
@@ -580,7 +603,8 @@ Lemma admissibleb_sound c w o : admissibleb c w o = true -> admissible c w o.
 Proof.
   destruct o; cbn [admissibleb admissible]; intros H; try exact I;
     try (apply adm_withcapb_sound; exact H);
-    try (apply adm_spliceb_sound; exact H);
+    try (apply andb_prop in H; destruct H as [H H']; split; [apply adm_spliceb_sound; exact H|];
+         intros d Hin; apply adm_patb_sound; rewrite forallb_forall in H'; apply H'; exact Hin);
     try (apply adm_cloneb_sound; exact H);
     try (apply adm_vecb_sound; exact H); try (apply bk_wfb_sound; exact H);
     try (apply adm_reserveb_sound; exact H); try (apply adm_shrinkb_sound; exact H);
@@ -672,6 +696,10 @@ Definition ex_ops : list op :=
     ODrain Erased 10 BUnbounded BUnbounded [(true, KPush 9); (false, KIns 9 0); (true, KForget)] FinDrop;
     ODrain Typed 9 (BIncluded 1) BUnbounded [(false, KPush 10)] FinForget;
     ODrain Erased 9 BUnbounded BUnbounded [(true, KPush 8)] FinDrop;
+    (* a splice whose yielded item is moved into another vector, one whose item is forgotten *)
+    OPush Erased 9 SWrap; OPush Erased 9 SWrap;
+    OSplice Erased 9 BUnbounded (BExcluded 1) [(true, KPush 10)] FinDrop RWrap 2 None 2;
+    OSplice Typed 9 (BIncluded 1) BUnbounded [(false, KForget); (true, KIns 10 0)] FinDrop RBox 1 None 1;
     OViews 8 ].                                   (* view geometry of the full StackN<2,8>: 6 bytes of elements, no spare *)
 
 Example ex_spec_defined : exists rs, spec_run ex_cfg [] 1 ex_ops = Some rs /\ length rs = length ex_ops.
@@ -706,7 +734,8 @@ Example ex_outcomes :
      (0,0,[]); (0,0,[]); (0,0,[64]);
      (0,0,[]); (0,0,[]); (0,0,[61]); (2,1,[]);
      (0,0,[]); (2,3,[]); (0,0,[1]); (0,0,[1; 1; 70; 0]); (0,0,[0]);
-     (0,0,[3; 1; 61; 2; 1; 67; 1; 1; 66; 0]); (0,0,[2; 1; 61; 1]); (2,3,[]); (0,0,[0; 6; 6; 0; 0; 2; 6; 0; 0])].
+     (0,0,[3; 1; 61; 2; 1; 67; 1; 1; 66; 0]); (0,0,[2; 1; 61; 1]); (2,3,[]);
+     (0,0,[]); (0,0,[]); (0,0,[1; 1; 73; 0]); (0,0,[2; 1; 74; 1; 1; 76; 0]); (0,0,[0; 6; 6; 0; 0; 2; 6; 0; 0])].
 Proof. vm_compute. reflexivity. Qed.
 
 (** ** Corollaries in the vocabulary of the properties *)
